@@ -350,50 +350,40 @@ func (c *Check) openEncodeLayout(rule string) {
 		n++
 		st := r.State
 		buf := res.Args[1]
-		// append(append(b9, uint8(len(params))), params...)
+		// wire order: version, asn, holdTime, bgpID, len(params), params
 		var probs []string
-		okShape := buf.Op == "append" && buf.Args[0].Op == "append1" && len(buf.Args[0].Args) == 2
-		if !okShape {
-			probs = append(probs, "body must be fixed9 ++ [len(params)] ++ params; got "+trunc(buf.Key, 100))
+		fieldIs := func(name string) func(v *Expr) bool {
+			return func(v *Expr) bool { return v != nil && v.Op == "ld" && v.Args[0].Op == "fa" && v.Args[0].S == name }
+		}
+		lay, lerr := st.layoutOf(buf, 0)
+		if lerr != "" {
+			probs = append(probs, "body construction not understood: "+lerr)
 		} else {
-			params := buf.Args[1]
-			lenOct := buf.Args[0].Args[1]
-			x := lenOct
-			if x.Op == "conv" {
-				x = x.Args[0]
+			var params *Expr
+			if len(lay) > 0 && lay[len(lay)-1].Kind == "bytes" {
+				params = lay[len(lay)-1].Val
 			}
-			d := st.linOf(x).add(st.linOf(mkLen(params)), -1)
-			if cv, isC := d.isConst(); !isC || cv != 0 {
-				probs = append(probs, "the optional-parameters length octet must be len(params)")
+			pats := []segPat{
+				{Kind: "byte", Pred: fieldIs("version"), What: "byte(version)"},
+				{Kind: "be16", Pred: fieldIs("asn"), What: "be16(asn)"},
+				{Kind: "be16", Pred: fieldIs("holdTime"), What: "be16(holdTime)"},
+				{Kind: "be32", Pred: fieldIs("bgpID"), What: "be32(bgpID)"},
+				{Kind: "byte", Pred: func(v *Expr) bool {
+					if params == nil || v == nil {
+						return false
+					}
+					x := v
+					if x.Op == "conv" {
+						x = x.Args[0]
+					}
+					d := st.linOf(x).add(st.linOf(mkLen(params)), -1)
+					cv, isC := d.isConst()
+					return isC && cv == 0
+				}, What: "byte(len(params))"},
+				{Kind: "bytes", What: "the encoded optional parameters"},
 			}
-			fixed := buf.Args[0].Args[0]
-			root, _, _ := sliceParts(fixed)
-			if root.Op != "arr" || root.C != 9 {
-				probs = append(probs, "fixed part must be 9 octets")
-			} else {
-				want := map[string]string{"0": "version", "be16@1": "asn", "be16@3": "holdTime", "be32@5": "bgpID"}
-				got := map[string]string{}
-				for k, v := range st.mem {
-					me := st.memE[k]
-					if me == nil {
-						continue
-					}
-					if me.Op == "ia" && me.Args[0].Key == root.Key {
-						if i, isC := me.Args[1].IsConst(); isC && v.Op == "ld" {
-							got[fmt.Sprint(i)] = v.Args[0].S
-						}
-					}
-					if me.Op == "bea" && me.Args[0].Key == root.Key {
-						if i, isC := me.Args[1].IsConst(); isC && v.Op == "ld" {
-							got[fmt.Sprintf("%s@%d", me.S, i)] = v.Args[0].S
-						}
-					}
-				}
-				for k, f := range want {
-					if got[k] != f {
-						probs = append(probs, fmt.Sprintf("offset %s must hold %s (found %q)", k, f, got[k]))
-					}
-				}
+			if ok, d := matchLayout(lay, pats); !ok {
+				probs = append(probs, "body must be version, asn, holdTime, bgpID, len(params), params: "+d)
 			}
 		}
 		if tv, isC := res.Args[2].IsConst(); !isC || tv != p.MustConst("openMessageType") {
